@@ -212,8 +212,11 @@ def finding_class(req, impl, model, why):
     has already linked it; the next use of the map reads freed memory.  Matched only at the fault positions where the
     pinned model predicts it (rc=U) and only for an AddressSanitizer use-after-free report."""
     t = req.split()
-    if len(t) > 3 and t[1] in ("mapset", "tclone") and model and " rc=U " in model + " " \
-            and impl.startswith("SAN:asan:heap-use-after-free"):
+    site = {"mapset": "@map.c:cif_map_set_item", "tclone": "@value.c:cif_value_clone_table"}
+    if len(t) > 3 and t[1] in site and impl.startswith("SAN:asan:heap-use-after-free") and impl.endswith(site[t[1]]) \
+            and (model is None or " rc=U " in model + " "):
+        # model is None in the leak sweep of property C16 (no model run there): the failing allocation must then at least
+        # have been made by the function itself (uthash's macros expand there), not by cif_u_strdup or the normaliser
         return "%s/uthash-fatal/entry-freed-while-linked" % t[1]
     return None
 
